@@ -36,9 +36,11 @@ func runC19(l *core.Ledger) {
 	l.Rule("C19-S4", "the provided keys order by what their names promise: ID and Port increasing over an integer projection (the port number, not its text), LastNodeError nodes without an error first")
 	l.Rule("C19-S2", "MultiSorter.Less combines the keys lexicographically: returns true on less(p,q), false on less(q,p) for all keys but the last in order from key 0, and the last key's less(p,q) otherwise; p,q = elements i,j of the slice being sorted")
 	l.Rule("C19-S3", "Sort stores its argument and calls sort.Sort on the receiver; Swap exchanges exactly elements i and j; Len is the length of that slice; no other function writes MultiSorter.nodes")
+	l.Rule("C19-S5", "what the keys project is what the node is: RawNode.Port (the Port key's projection) returns the port that net.SplitHostPort gives for the node's address (or a field filled from it / from the resolved TCP address); the LastNodeError key orders by the documented LastErr() status: its projection is LastErr() itself or the expression LastErr() returns")
 	c19S1(l, r)
 	c19S2(l, r)
 	c19S3(l, r)
+	c19S5(l, r)
 }
 
 // ---------------------------------------------------------------- S1
@@ -280,6 +282,15 @@ func (ev *keyEval) expr(e ast.Expr) (bool, bool) {
 				return a == b, true
 			default:
 				return a != b, true
+			}
+		}
+	}
+	// a boolean projection of one parameter used as a condition (a predicate helper: n.failed())
+	if t := m.info.TypeOf(e); t != nil {
+		if b, isB := t.Underlying().(*types.Basic); isB && b.Kind() == types.Bool {
+			if pr := m.proj(e); pr != nil {
+				m.note(pr.canon, projNil)
+				return ev.val(pr) != 0, true
 			}
 		}
 	}
@@ -959,5 +970,147 @@ func c19S3(l *core.Ledger, r *rt) {
 			good = good && seen[1] && seen[2]
 		}
 		l.Check(good, "C19-S3", key, fn.Pos(), "exchanges nodes[i] and nodes[j] (both loads precede both stores)", "Swap is not exactly the exchange of elements i and j of ms.nodes")
+	}
+}
+
+// ---------------------------------------------------------------- S5
+
+// c19S5: projection fidelity. The strict-weak-order table is about the
+// comparison; a key still orders wrongly when the accessor it projects through
+// gives something else than the node's attribute.
+func c19S5(l *core.Ledger, r *rt) {
+	keys := map[string]keyDef{}
+	for _, k := range sortKeys(r) {
+		keys[k.name] = k
+	}
+	// ---- Port
+	if k, ok := keys["Port"]; ok {
+		usesPort := false
+		ast.Inspect(k.lit.Body, func(n ast.Node) bool {
+			if c, isC := n.(*ast.CallExpr); isC {
+				if sel, isS := c.Fun.(*ast.SelectorExpr); isS && sel.Sel.Name == "Port" {
+					usesPort = true
+				}
+			}
+			return true
+		})
+		fn := r.fn("RawNode.Port")
+		if usesPort && fn != nil && len(fn.Blocks) > 0 {
+			recv := fn.Params[0]
+			fromSplit := func(o sx.Origin) bool {
+				c, isC := o.V.(*ssa.Call)
+				return o.Kind == sx.KExtract && isC && o.Index == 1 && sx.StaticCalleeName(&c.Call) == "net.SplitHostPort"
+			}
+			fromResolved := func(o sx.Origin) bool {
+				c, isC := o.V.(*ssa.Call)
+				if o.Kind != sx.KCall || !isC || sx.StaticCalleeName(&c.Call) != "strconv.Itoa" {
+					return false
+				}
+				return sx.All(sx.Origins(c.Call.Args[0]), func(a sx.Origin) bool {
+					return a.Kind == sx.KField && a.Field != nil && a.Field.Name() == "Port" && a.Field.Pkg() != nil && a.Field.Pkg().Path() == "net"
+				})
+			}
+			good, why := true, ""
+			nret := 0
+			sx.AllInstrs(fn, func(_ sx.Node, in ssa.Instruction) {
+				ret, isRet := in.(*ssa.Return)
+				if !isRet || len(ret.Results) != 1 {
+					return
+				}
+				nret++
+				for _, o := range sx.Origins(ret.Results[0]) {
+					switch {
+					case o.Kind == sx.KConst:
+					case fromSplit(o):
+						c := o.V.(*ssa.Call)
+						if !sx.All(sx.Origins(c.Call.Args[0]), sx.IsFieldNamed("addr", sx.IsParam(recv))) {
+							good, why = false, "SplitHostPort is not applied to the node's address"
+						}
+					case o.Kind == sx.KField && o.Field != nil && sx.All(o.Base, sx.IsParam(recv)):
+						// a cached field: every store into it must come from the address
+						fld := o.Field
+						stores := 0
+						for _, f := range allFuncs(l.Prog, r.pkg) {
+							sx.AllInstrs(f, func(_ sx.Node, in2 ssa.Instruction) {
+								st, isSt := in2.(*ssa.Store)
+								if !isSt {
+									return
+								}
+								fa, isFA := st.Addr.(*ssa.FieldAddr)
+								if !isFA || fieldOf(fa.X.Type(), fa.Field) != fld {
+									return
+								}
+								stores++
+								if !sx.All(sx.Origins(st.Val), func(so sx.Origin) bool { return fromSplit(so) || fromResolved(so) }) {
+									good, why = false, "the cached field "+fld.Name()+" is filled from "+sx.OriginsString(sx.Origins(st.Val))
+								}
+							})
+						}
+						if stores == 0 {
+							good, why = false, "the field "+fld.Name()+" is never filled"
+						}
+					default:
+						good, why = false, "returns "+o.String()
+					}
+				}
+			})
+			l.Check(good && nret > 0, "C19-S5", "gorums.(RawNode).Port", fn.Pos(), "the port net.SplitHostPort gives for the node's address", "RawNode.Port, through which the Port key looks at a node, does not return the port of the node's address as net.SplitHostPort splits it ("+why+"): hand-made splitting gives a wrong port for addresses such as [2001:db8::1]:50051, and the key then orders those nodes by something that is not their port")
+		}
+	}
+	// ---- LastNodeError vs LastErr
+	if k, ok := keys["LastNodeError"]; ok {
+		var names []*ast.Ident
+		for _, f := range k.lit.Type.Params.List {
+			names = append(names, f.Names...)
+		}
+		if len(names) != 2 {
+			return
+		}
+		m := &keyModel{info: r.pkg.TypesInfo, p1: r.pkg.TypesInfo.Defs[names[0]], p2: r.pkg.TypesInfo.Defs[names[1]], locals: map[types.Object]*projRef{}, projs: map[string]projKind{}}
+		// projections the key compares with nil / uses as predicates
+		var projs []string
+		ast.Inspect(k.lit.Body, func(n ast.Node) bool {
+			switch x := n.(type) {
+			case *ast.BinaryExpr:
+				if x.Op == token.EQL || x.Op == token.NEQ {
+					for _, side := range []ast.Expr{x.X, x.Y} {
+						if !isNilIdent(m.info, side) {
+							if pr := m.proj(side); pr != nil {
+								projs = append(projs, pr.canon)
+							}
+						}
+					}
+				}
+			}
+			return true
+		})
+		// what LastErr returns, as an expression over its receiver
+		want := map[string]bool{"_.LastErr()": true}
+		for _, f := range r.pkg.Syntax {
+			for _, d := range f.Decls {
+				fd, isFD := d.(*ast.FuncDecl)
+				if !isFD || fd.Name.Name != "LastErr" || fd.Recv == nil || len(fd.Recv.List) != 1 || len(fd.Recv.List[0].Names) != 1 || fd.Body == nil {
+					continue
+				}
+				rm := &keyModel{info: r.pkg.TypesInfo, p1: r.pkg.TypesInfo.Defs[fd.Recv.List[0].Names[0]], locals: map[types.Object]*projRef{}, projs: map[string]projKind{}}
+				ast.Inspect(fd.Body, func(n ast.Node) bool {
+					if ret, isRet := n.(*ast.ReturnStmt); isRet && len(ret.Results) == 1 && !isNilIdent(rm.info, ret.Results[0]) {
+						if pr := rm.proj(ret.Results[0]); pr != nil {
+							want[pr.canon] = true
+						}
+					}
+					return true
+				})
+			}
+		}
+		bad := ""
+		for _, p := range projs {
+			if !want[p] {
+				bad = p
+			}
+		}
+		if len(projs) > 0 {
+			l.Check(bad == "", "C19-S5", "gorums.LastNodeError/projection", k.pos, "orders by LastErr()", "the LastNodeError key is documented to order nodes by their LastErr() status, but it looks at "+bad+", which is not what LastErr() returns: a node can report an error through LastErr() and still be ordered with the error-free nodes (or the other way round)")
+		}
 	}
 }
